@@ -92,7 +92,7 @@ Print Assumptions C05_flat_is_textbook.
    pairs of blocks never have equal linkage) that specification has exactly one outcome, so the
    result COINCIDES with the textbook procedure: every run of the specification from the singletons
    ends in the partition the implementation returns (same blocks; cluster names and member order
-   are immaterial).  Hypotheses: symmetric matrix; a linkage that does not depend on the order of
+   are immaterial).  Hypothesis: a linkage that does not depend on the order of
    the cross distances (min, max and sum/len are such functions on any carrier in which equal
    values are identical, e.g. floats). *)
 Theorem C05_coincides_with_textbook_without_ties :
@@ -100,7 +100,6 @@ Theorem C05_coincides_with_textbook_without_ties :
     (forall a b, leb a b = true \/ leb b a = true) ->
     (forall a b c, leb a b = true -> leb b c = true -> leb a c = true) ->
     (forall l l', Permutation.Permutation l l' -> link l = link l') ->
-    (forall x y, d x y = d y x) ->
     forall (n : nat) (thr : V), no_ties V leb link d ->
     forall r, tb_run V leb link d thr (init n) r ->
       forall x y, together r x y <-> together (flat leb link d n thr) x y.
